@@ -301,6 +301,9 @@ def scenario(name):
         return [], [], None
     if name == "files2":
         return [(b"/d/f0", b"root", b"root", None), (b"/e/f1", b"u", b"g", None)], [], None
+    if name == "utf8name":
+        # a file name with multi-byte UTF-8 characters (literal): byte lengths and character counts differ
+        return [("/d/gr\u00fc\u00dfe".encode(), b"root", b"root", None), (b"/d/z", b"root", b"root", None)], [], None
     if name == "scriptlets":
         return [], [(sn, [_scriptlet(b"echo " + sn.encode()[:3], prog=[b"/bin/sh", b"-e"], flags=1)]) for sn in SCRIPTLET_SETTERS], None
     if name == "scriptlets_plain":
@@ -468,7 +471,7 @@ def replay_c09build(ctx, fl):
     return why is not None, "real crate: scenario %s built through the public API: %s" % (fl["scenario"], why or "structurally valid")
 
 
-for _sn in ("empty", "files2", "scriptlets", "scriptlets_plain", "deps", "caps_first", "caps_last") + tuple("dep_" + k for k in DEP_SETTERS):
+for _sn in ("empty", "files2", "utf8name", "scriptlets", "scriptlets_plain", "deps", "caps_first", "caps_last") + tuple("dep_" + k for k in DEP_SETTERS):
     HARNESSES["c09_build_" + _sn] = (lambda n: (lambda ctx: c09_build(ctx, n)))(_sn)
 REPLAYERS["c09"] = (lambda prev: (lambda ctx, fl: replay_c09build(ctx, fl) if fl.get("kind") == "c09build" else prev(ctx, fl)))(REPLAYERS["c09"])
 
